@@ -63,7 +63,8 @@ type EvRedef struct {
 	Ev     string  `json:"ev"` // "redef"
 	OK     bool    `json:"ok"`
 	Inputs []Label `json:"inputs"`
-	Given  []Label `json:"given"` // label under which the harness supplied each declared input (interface types -> dynamic type)
+	Given  []Label `json:"given"`  // label under which the harness supplied each declared input (interface types -> dynamic type)
+	Given2 []Label `json:"given2"` // the same for the second and third call (another implementing type for interface inputs)
 	Toks   []int   `json:"toks"`  // fresh tokens handed to the follow-up call, per declared input
 	Toks3  []int   `json:"toks3"` // fresh tokens handed to the third call (all declared inputs but the last)
 	Detail string  `json:"detail"`
